@@ -14,6 +14,7 @@ import (
 	"encoding/xml"
 	"fmt"
 	"testing"
+	"time"
 
 	"github.com/olive-io/bpmn/schema"
 	"pgregory.net/rapid"
@@ -21,6 +22,8 @@ import (
 	"verif/harness/gen"
 	"verif/harness/rec"
 )
+
+const layoutCeiling = 20 * time.Second
 
 type branchDesc struct {
 	// SelfLoops: number of tasks that get a sequence flow back to themselves
@@ -63,7 +66,17 @@ func checkBranch(d branchDesc) (sym, det, x string) {
 	if !d.Layout.Default {
 		cfg = &schema.AutoLayoutConfig{StartX: d.Layout.StartX, StartY: d.Layout.StartY, ColumnGap: d.Layout.ColumnGap, RowGap: d.Layout.RowGap, ProcessGap: d.Layout.ProcessGap}
 	}
-	db.AutoLayout(cfg)
+	// AutoLayout is a pure computation over a few dozen nodes (microseconds).
+	// A layout that has not returned after layoutCeiling has exceeded its normal
+	// running time a million-fold: it is reported as "never emits the shapes",
+	// the only verdict a test can give on non-termination.
+	laid := make(chan struct{})
+	go func() { db.AutoLayout(cfg); close(laid) }()
+	select {
+	case <-laid:
+	case <-time.After(layoutCeiling):
+		return "layout-hang", fmt.Sprintf("AutoLayout has not returned after %v (program with %d self-loop flows)", layoutCeiling, d.SelfLoops), ""
+	}
 	defs := db.Out()
 	b, _ := xml.Marshal(defs)
 	ld := descriptor{Layout: d.Layout}
